@@ -196,7 +196,7 @@ class World:
         steps = []
         while isinstance(impl, DynamicSpaceImpl):
             if isinstance(impl, ItemSpaceImpl):
-                steps.append(["i", "", [enc_val(a) for a in impl.argvalues]])
+                steps.append(["i", "", [enc_val(a) for a in impl.argvalues_if]])
             else:
                 steps.append(["c", impl.name, []])
             impl = impl.parent
@@ -293,6 +293,12 @@ class World:
         if self.track_handles:
             self.take_handles()
             post["handles"] = self.probe_handles()
+            items = []
+            for sp in self.all_spaces():
+                if isinstance(sp, ItemSpaceImpl):
+                    pth, st = self.enc_space(sp)
+                    items.append([pth, st, self._handle_ids.get(id(sp.interface), -1)])
+            post["items"] = items
         return post
 
     # ------------------------------------------------------------------
@@ -490,7 +496,10 @@ class World:
             ev["res"] = res
             if getattr(self, "_created", None):
                 ev["created"] = self._created
+            if getattr(self, "_extra", None):
+                ev.update(self._extra)
         self._created = None
+        self._extra = None
         ev["fx"] = [[f[0], f[1]] + ([enc_val(f[2])] if f[0] == "exit" else f[2:])
                     for f in self.rec.take()]
         self.sync()
@@ -659,14 +668,22 @@ class World:
         sp = op.get("sp", "sub")
         if sp == "call":
             it = s(*k)
+        elif sp == "kw":
+            names = s.parameters
+            it = s(**{names[i]: a for i, a in enumerate(k)})
         else:
             it = s[tuple(k)] if len(k) != 1 else s[k[0]]
+        self.take_handles()
+        self._extra = {"hid": self._handle_ids.get(id(it), -1)}
         return "ok"
 
     def op_del_item(self, op):
         s = self.space(op["s"], op.get("st", ()))
         k = op["key"]
-        s.clear_at(*k)
+        if op.get("via") == "del":
+            del s[tuple(k) if len(k) != 1 else k[0]]
+        else:
+            s.clear_at(*k)
         return "ok"
 
     def op_set_recalc(self, op):
